@@ -115,6 +115,29 @@ def streams(tier, rng):
             cases.append(c)
             info[c] = stream
         groups.append((start, len(cases), stream))
+    # a call that fills the buffer exactly (pending + chunk = length - 1) while completing a message: nothing overruns, so it
+    # must behave like byte-at-a-time delivery into the same buffer
+    for _ in range(150 if tier == 'quick' else 2000):
+        msgs = [rng.choice([b'II 5', b'TEST:A?', b'TXT "xy"', b'CH 1,2', b'TEST:A?;B?', b'N? 12 MV', b'BLK?', b'E?;II 1', b'FOO', b'TXT \'a b c\'']) for _ in range(rng.randint(2, 4))]
+        stream = b''.join(m + rng.choice([b'\n', b'\r\n']) for m in msgs)
+        nls = [i for i, ch in enumerate(stream) if ch == 10]
+        k = rng.randrange(len(nls) - 1) if len(nls) > 1 else 0
+        lo = nls[k - 1] + 1 if k > 0 else 0                 # start of the message that the filling chunk completes
+        p1 = rng.randint(lo, nls[k])                         # the chunk starts inside that message ...
+        p2 = rng.randint(nls[k] + 1, min(len(stream), nls[k] + 1 + 6))      # ... and ends after its terminator
+        capx = (p1 - lo) + (p2 - p1) + 1
+        if capx - 1 < max(len(m) + 2 for m in msgs):
+            continue                                         # some message would not fit: outside the property's precondition
+        pats = gen.PATS[:]
+        table = [(tag, p, gen.rscript(rng, stream_blocks=False)) for tag, p in enumerate(pats)]
+        one = [stream[i:i + 1] for i in range(len(stream))]
+        fill = [stream[i:i + 1] for i in range(p1)] + [stream[p1:p2]] + [stream[i:i + 1] for i in range(p2, len(stream))]
+        start = len(cases)
+        for ch in (one, fill):
+            c = gen.scenario(capx, 16, table, [('I', x) for x in ch if x] + [('I', b'')])
+            cases.append(c)
+            info[c] = stream
+        groups.append((start, len(cases), stream))
 
     def post(cases_, outs):
         res = []
